@@ -250,7 +250,7 @@ def classify(text, res, ctx):
     out = []
     n = text.split("note ")[-1].split()
     out += n[:2]
-    for k in ("pool_pops_empty", "pool_removes", "pool_pop_wait_ex"):
+    for k in ("pool_pops_empty", "pool_removes", "pool_pop_wait_ex", "pool_push_many_ex"):
         if stat(res, k):
             out.append(k)
     if overlap(parse_history(res)):
